@@ -55,6 +55,9 @@ LEAVES = {
     "T1": ("T", [], [1], RG.T, PI / 4),
     "RY1": ("RY", [A.G2], [1], RG.RY(A.G2), abs(A.G2) / 2),
     "CRX10": ("CRX", [G1], [1, 0], RG.controlled(RG.RX(G1)), G1 / 2),
+    # Paulis on ONE wire (products collapse to a phase times a Pauli / identity) and a non-Pauli operand on the other wire
+    "Y0": ("PauliY", [], [0], RG.Y, PI),
+    "RX1": ("RX", [G1], [1], RG.RX(G1), G1 / 2),
 }
 LEAF_ALL = ["X0", "Y1", "Z0", "H1", "S0", "RX0", "RZ1", "CNOT01", "SWAP10", "Herm0", "I1", "PS0", "QFT01", "RX0s"]
 LEAF6 = ["X0", "Y1", "S0", "RX0", "CNOT01", "Herm0"]
